@@ -13,8 +13,10 @@ Steps (all in a scratch worktree /tmp/seedtest-wt, never in /repo except step 4)
 """
 import json, os, re, shutil, subprocess, sys, time
 
-V = "/verif"
-ENV = dict(os.environ, GOFLAGS="-mod=mod", GOPROXY="off", GOSUMDB="off", GOTOOLCHAIN="local")
+V = os.environ.get("SEED_VERIF", "/verif")
+REPO = os.environ.get("SEED_REPO", "/repo")
+OUT = "/verif"
+ENV = dict(os.environ, UGO_REPO=os.environ.get("SEED_REPO", "/repo"), GOFLAGS="-mod=mod", GOPROXY="off", GOSUMDB="off", GOTOOLCHAIN="local")
 PKGDIR = {"ugo": ".", "ugo_test": ".", "json": "stdlib/json", "json_test": "stdlib/json", "encoder": "encoder",
           "encoder_test": "encoder", "parser": "parser", "parser_test": "parser", "time": "stdlib/time",
           "time_test": "stdlib/time", "strings": "stdlib/strings", "strings_test": "stdlib/strings",
@@ -33,7 +35,7 @@ def main():
     if "--checks" in sys.argv:
         checks = sys.argv[sys.argv.index("--checks") + 1].split(",")
     src = f"/tmp/mut-{pid}/out"
-    dst = f"{V}/seeded/{pid}-{n}"
+    dst = f"{OUT}/seeded/{pid}-{n}"
     os.makedirs(dst, exist_ok=True)
     shutil.copy(f"{src}/patch{n}.diff", f"{dst}/patch.diff")
     demo = None
@@ -45,9 +47,9 @@ def main():
         shutil.copy(f"{src}/README.md", f"{dst}/README.agent.md")
     meta = {"property": pid, "n": int(n), "patch": "patch.diff", "demo": demo, "ran": []}
 
-    wt = "/tmp/seedtest-wt"
-    sh(f"git -C /repo worktree remove --force {wt}")
-    rc, out = sh(f"git -C /repo worktree add --detach {wt} HEAD")
+    wt = "/tmp/seedtest-wt-" + os.path.basename(V)
+    sh(f"git -C {REPO} worktree remove --force {wt}")
+    rc, out = sh(f"git -C {REPO} worktree add --detach {wt} HEAD")
     try:
         rc, out = sh(f"git apply --check {dst}/patch.diff", cwd=wt)
         meta["applies_to_head"] = rc == 0
@@ -96,16 +98,16 @@ def main():
         else:
             meta["demo_note"] = "demo is not a _test.go file: verified manually (see README.agent.md)"
     finally:
-        sh(f"git -C /repo worktree remove --force {wt}")
+        sh(f"git -C {REPO} worktree remove --force {wt}")
 
     # our checks on /repo with the patch applied
-    rc, out = sh("git status --porcelain", cwd="/repo")
+    rc, out = sh("git status --porcelain", cwd=REPO)
     if out.strip():
         meta["error"] = "/repo is not clean"
         return finish(dst, meta)
     results = {}
     try:
-        rc, out = sh(f"git apply {dst}/patch.diff", cwd="/repo")
+        rc, out = sh(f"git apply {dst}/patch.diff", cwd=REPO)
         if rc != 0:
             meta["error"] = "patch does not apply to /repo: " + out[-300:]
             return finish(dst, meta)
@@ -119,7 +121,7 @@ def main():
             if m and os.path.exists(m.group(1)):
                 shutil.copy(m.group(1), f"{dst}/replay-{c}.json")
     finally:
-        sh("git checkout -- . && git clean -fdq", cwd="/repo")
+        sh("git checkout -- . && git clean -fdq", cwd=REPO)
     meta["checks"] = results
     meta["detected_by"] = [c for c, r in results.items() if r["exit"] == 1]
     # restore the green evidence/replays state
